@@ -11,6 +11,17 @@ import (
 func oneToOne[T comparable](t *testing.T, mk func() *elems[T], n int) {
 	es := mk()
 	n = min(n, es.max+1)
+	if es.card > 0 {
+		n = min(n, es.card)
+		for x := 0; x < 3*es.card; x++ {
+			if es.of(x) != es.of(x%es.card) {
+				t.Fatalf("kind %q: stream value %d is not the element of %d", es.kind, x, x%es.card)
+			}
+		}
+		if c := cardOf(es.kind); c != es.card {
+			t.Fatalf("kind %q: cardOf = %d, card = %d", es.kind, c, es.card)
+		}
+	}
 	first := make(map[T]int, n)
 	for x := 0; x < n; x++ {
 		e := es.of(x)
@@ -44,9 +55,30 @@ func TestKindsOneToOne(t *testing.T) {
 	oneToOne(t, ptrElems, 1<<17)
 	oneToOne(t, anyElems, 1<<17)
 	oneToOne(t, f64Elems, 1<<17)
+	oneToOne(t, unitElems, 8)
+	oneToOne(t, zarrElems, 8)
+	oneToOne(t, znestElems, 8)
+	oneToOne(t, boolElems, 8)
+	oneToOne(t, u8Elems, 1<<10)
 	for _, k := range detKinds {
 		if msg := runDet(DetCase{Size: 4, Ops: []int{0, 1, 0, Reset, 2}, Elem: k}, &vk.Obs{}); msg != "" {
 			t.Fatalf("kind %q: %s", k, msg)
 		}
+	}
+}
+
+// TestStudentBand pins the numbers quoted at studentBand: from 100 counters on
+// the band of 8 standard errors keeps 7 normal deviations.
+func TestStudentBand(t *testing.T) {
+	for _, c := range []struct {
+		R      int
+		lo, hi float64
+	}{{100, 7.9, 8.0}, {128, 7.7, 7.8}, {512, 7.1, 7.25}, {4000, 7.0, 7.05}, {50, 8.0, 9.5}} {
+		if b := studentBand(c.R); !(b > c.lo && b <= c.hi) {
+			t.Errorf("studentBand(%d) = %.4f, want in (%.2f, %.2f]", c.R, b, c.lo, c.hi)
+		}
+	}
+	if b := studentBand(2); b < 1e300 {
+		t.Errorf("studentBand(2) = %v, want +Inf", b)
 	}
 }
